@@ -284,7 +284,9 @@ def sigFeed (infos : List (Nat × SigInfo)) (a : SAcc) (e : Ev) : SAcc :=
     | none => a
   | "unparked" =>
     match ownSig with
-    | some inst => if inst.st.wpc == .parked then sstep a inst.addr (.wUnparked (e.args.headD "" == "spurious")) ctx else a
+    -- the park token belongs to the THREAD: a token left behind by the late `unpark` of an earlier operation's peer (that operation had
+    -- already returned, e.g. after a spurious wake-up) is, for the signal waited on now, a spurious return
+    | some inst => if inst.st.wpc == .parked then sstep a inst.addr (.wUnparked (e.args.headD "" == "spurious" || !inst.st.token)) ctx else a
     | none => a
   | "pread" | "pwrite" | "pcopy" =>
     -- by the owner: its own final read; by anybody else: buffered until we know which signal it finalises
